@@ -30,11 +30,8 @@ impl IntegerColumn {
                 if min > *curr { min = *curr }
             }
         }
-        let interval = if min < 0 && max > 0 {
-            max as u64 + (-(min as i128)) as u64
-        } else {
-            (max - min) as u64
-        };
+        // max >= min, so the difference always fits u64 (but not necessarily i64)
+        let interval = (max as i128 - min as i128) as u64;
         let mut column = if min >= 0 && max <= u8::MAX as i64 {
             IntegerColumn::create_col::<u8>(name, values, 0, min0, max0, delta_encode, null, EncodingType::U8)
         } else if interval <= u8::MAX as u64 {
